@@ -622,6 +622,15 @@ impl State {
             want(&["Write"]),
             want(&["Call"]),
         ];
+        // consequence (C14): consistently renaming identifiers through the mutable iterators and in the context does
+        // not change the result (names inside unknown-identifier errors are renamed alike)
+        if !occ.is_empty() {
+            match guard(|| rename_invariance(tree)) {
+                Ok(Ok(())) => self.distinct("renamed", case),
+                Ok(Err(d)) => self.fail("occ", format!("{src:?}: {d}"), case, json!(null)),
+                Err(p) => self.fail("panic", format!("{src:?}: renaming panicked at {p}"), case, json!({"panic": p})),
+            }
+        }
         for ((name, imm, mutv), w) in got.iter().zip(wants.iter()) {
             if imm != w {
                 self.fail("occ", format!("{src:?}: {name} = {imm:?}, specification {w:?}"), case, json!({"iter": name, "got": imm}));
@@ -690,6 +699,47 @@ pub fn enc_obs(obs: &Result<V, E>) -> J {
         Ok(v) => json!({"ok": true, "v": enc_value(v), "text": format!("{v:?}")}),
         Err(e) => json!({"ok": false, "e": enc_error(e), "text": format!("{e:?}")}),
     }
+}
+
+/// Evaluates `tree` in the populated context, and the tree renamed through the mutable iterators (every identifier n
+/// becomes n_r) in the correspondingly renamed context; the outcomes must be equal up to the renaming.
+pub fn rename_invariance(tree: &Tree) -> Result<(), String> {
+    let r = |n: &str| format!("{n}_r");
+    let mut renamed = tree.clone();
+    for id in renamed.iter_variable_identifiers_mut() {
+        *id = r(id);
+    }
+    for id in renamed.iter_function_identifiers_mut() {
+        *id = r(id);
+    }
+    let mut c1 = populated();
+    let mut c2 = HashMapContext::<DefaultNumericTypes>::new();
+    c2.set_value(r("x"), Value::Int(1)).unwrap();
+    c2.set_value(r("y"), Value::Int(2)).unwrap();
+    c2.set_function(r("f"), Function::new(|a| Ok(a.clone()))).unwrap();
+    let a = tree.eval_with_context_mut(&mut c1);
+    let b = renamed.eval_with_context_mut(&mut c2);
+    let a_renamed = match a {
+        Err(EvalexprError::VariableIdentifierNotFound(n)) => Err(EvalexprError::VariableIdentifierNotFound(r(&n))),
+        // builtin names are not renamed by the language: a renamed builtin is unknown, which is not a counterexample
+        Err(EvalexprError::FunctionIdentifierNotFound(n)) => Err(EvalexprError::FunctionIdentifierNotFound(r(&n))),
+        other => other,
+    };
+    let uses_builtin = tree.iter_function_identifiers().any(|n| n != "f");
+    if uses_builtin {
+        return Ok(());
+    }
+    if !same_result(&a_renamed, &b) {
+        return Err(format!("renaming changes the result: {a_renamed:?} became {b:?}"));
+    }
+    let mut v1: Vec<(String, V)> = c1.iter_variables().map(|(n, v)| (r(&n), v)).collect();
+    let mut v2: Vec<(String, V)> = c2.iter_variables().collect();
+    v1.sort_by(|p, q| p.0.cmp(&q.0));
+    v2.sort_by(|p, q| p.0.cmp(&q.0));
+    if v1.len() != v2.len() || !v1.iter().zip(&v2).all(|(p, q)| p.0 == q.0 && same_value(&p.1, &q.1)) {
+        return Err(format!("renaming changes the context afterwards: {v1:?} vs {v2:?}"));
+    }
+    Ok(())
 }
 
 fn same_result(a: &Result<V, E>, b: &Result<V, E>) -> bool {
